@@ -4,7 +4,9 @@ CONSTANTS BS0 = 8
  HS = 0
  MaxLen = 6
  Gen = FALSE
+ Toggles = FALSE
 INVARIANT BufOK
 INVARIANT PendingOK
 INVARIANT RetInsideCur
+INVARIANT StoreOK
 CHECK_DEADLOCK FALSE
